@@ -23,6 +23,54 @@ INVERSES = {
 }
 
 
+def withdraw_rule(rep, r1, m, SIG, only=None):
+    """A wait that can be left for another reason while its own wake-up is already scheduled (a grant or a condition
+    signal in the same instant) withdraws that wake-up whenever it returns with anything but the success code."""
+    for fn, action in (("cmb_resourceguard_wait", "wakeup_event_resource"), ("cmb_condition_wait", "wakeup_event_condition")):
+        if only is not None and fn not in only:
+            continue
+        f = m.need(fn)
+        cx = FuncCtx(m, f)
+        pcs = [c for c in walk(f.body) if c["kind"] == "CallExpr" and callee_ref(c) == "cmb_event_pattern_cancel"]
+        good = False
+        why = "no withdrawal found"
+        for c in pcs:
+            a = [cx.canon(z) for z in kids(c)[1:]]
+            if not (a[0] == action and a[1] == "cmb_process_current()"):
+                continue
+            conds = []
+            for x in inv.enclosing_chain(f, c):
+                if x["kind"] == "IfStmt":
+                    in_then = any(y is c for y in walk(kids(x)[1]))
+                    conds.append((cx.canon(kids(x)[0]), in_then, x))
+            covers_all = True
+            for ctext, in_then, x in conds:
+                c0 = strip(kids(x)[0], casts=True)
+                ok_c = False
+                if c0["kind"] == "BinaryOperator" and c0.get("opcode") in ("!=", "=="):
+                    sides = [cx.canon(z) for z in kids(c0)]
+                    vals = [common.sigval(t_) for t_ in sides]
+                    is_succ = any(v_ == SIG["CMB_PROCESS_SUCCESS"] for v_ in vals if v_ is not None)
+                    if is_succ and ((c0["opcode"] == "!=" and in_then) or (c0["opcode"] == "==" and not in_then)):
+                        ok_c = True
+                # conditions about queue membership (already granted / still queued) do not restrict the signal codes
+                if re.search(r"cmi_hashheap_is_enqueued|cmi_hashheap_cancel|cmi_hashheap_remove|found", ctext):
+                    ok_c = True
+                if not ok_c:
+                    covers_all = False
+                    why = "it is withdrawn only under '%s'%s" % (ctext, "" if in_then else " being false")
+            if covers_all:
+                good = True
+        r1.instance("%s withdraws a pending %s on every non-success return: %s" % (fn, action, good))
+        if not good:
+            rep.finding(r1, fn, "no-undo:pending-" + ("grant" if "guard" in fn else "wakeup"),
+                        "%s does not withdraw a %s wake-up that is still pending when it returns for another reason (%s): it "
+                        "resumes the process later, out of an unrelated wait" % (fn, action, why), where=m.rel(f.where))
+            r1.fail()
+        else:
+            r1.ok()
+
+
 def rules(rep, m):
     SIG = common.signal_table(m)
     may_yield = m.reaches({"cmi_coroutine_transfer"})
@@ -96,25 +144,7 @@ def rules(rep, m):
                         "resume value" % bn, where=m.rel(f.where))
             r1.fail()
         rep.sample({"rule": "R-C04-1", "primitive": bn, "registrations": [[c[1], list(c[2][:3])] for c in regs_seen.get("pre", [])]})
-    # the pending-grant and pending-condition wake-ups (fixed defects) are checked by the dedicated withdraw rule
-    for fn, action in (("cmb_resourceguard_wait", "wakeup_event_resource"), ("cmb_condition_wait", "wakeup_event_condition")):
-        f = m.need(fn)
-        cx = FuncCtx(m, f)
-        pcs = [c for c in walk(f.body) if c["kind"] == "CallExpr" and callee_ref(c) == "cmb_event_pattern_cancel"]
-        good = False
-        for c in pcs:
-            a = [cx.canon(z) for z in kids(c)[1:]]
-            guarded = any(x["kind"] == "IfStmt" and "!=" in cx.canon(kids(x)[0]) for x in inv.enclosing_chain(f, c))
-            if a[0] == action and a[1] == "cmb_process_current()" and guarded:
-                good = True
-        r1.instance("%s withdraws a pending %s on abnormal return: %s" % (fn, action, good))
-        if not good:
-            rep.finding(r1, fn, "no-undo:pending-" + ("grant" if "guard" in fn else "wakeup"),
-                        "%s does not withdraw a %s wake-up that is still pending when it returns for another reason: it "
-                        "resumes the process later, out of an unrelated wait" % (fn, action), where=m.rel(f.where))
-            r1.fail()
-        else:
-            r1.ok()
+    withdraw_rule(rep, r1, m, SIG)
 
     # R-C04-2 ------------------------------------------------------------
     r2 = rep.rule("R-C04-2", "the unwinding routines are total: a function that reports 'not found' gracefully does not also "
